@@ -28,6 +28,11 @@ THEOREMS = [
     "Aio.C17.history_in_order_and_released_partial",
     "Aio.C17.f18_self_in_history",
     "Aio.C17.responses_all_disposed",
+    "Aio.C17.faultfree_runF_is_run",
+    "Aio.C17.secrets_confined_under_faults",
+    "Aio.C17.at_most_max_redirects_plus_one_resend",
+    "Aio.C17.one_resend_per_call",
+    "Aio.C17.single_resend_exceeds_max_by_one",
 ]
 RULE = ("a case = (method, start URL over 7 origins [same host other port / other scheme / other host / sub-domain / IP] "
         "with or without embedded credentials, caller headers incl. Authorization / Cookie / Proxy-Authorization / Host / "
@@ -37,13 +42,21 @@ RULE = ("a case = (method, start URL over 7 origins [same host other port / othe
         "Location form {absolute, upper-case absolute, scheme-relative, absolute path, relative, query-only, fragment, URI header, "
         "missing, empty, invalid, non-HTTP, host-less}, Set-Cookie headers. Generator classes: origin walks (A-B-A), URL "
         "credentials per hop, the status x method x body table (systematic), the counter (max around the chain length), "
-        "Location forms, random mixes. A case is non-trivial when at least one request reached a server; distinct by content.")
+        "Location forms, jar walks (hop 0 sets host-only / Domain / Path-limited / Secure cookies, 0-2 hops to the setting host warm the "
+        "real CookieJar's caches, then a hop to a sub-domain / sibling / parent / other host / other scheme / other path and back), "
+        "fault chains (the peer closes a connection without answering: first attempt of hop k, every hop, twice in a row; "
+        "301/302/303/307/308 x GET/POST/PUT/DELETE x max_redirects around the chain length x default session and retry switched off), "
+        "random mixes (15 % with random faults). A case is non-trivial when at least one request reached a server; distinct by content.")
 TRUSTED_BASE = [
     "yarl is not modelled: each redirect target reaches the model already classified (missing / URL() raised / non-HTTP scheme / "
     "origin() raised / absolute URL with origin, Host value, request-target, userinfo-derived Authorization value) - the harness "
     "derives these by construction of the Location string, not from the code under test",
-    "CookieJar (property C16) is a parameter of the theorems; in the correspondence run its per-hop selections come from an "
-    "independent twin CookieJar fed with the same Set-Cookie headers",
+    "CookieJar (property C16) is a parameter of the theorems; in the correspondence run its per-hop selections come from a "
+    "twin CookieJar fed with the same Set-Cookie headers; the DIRECT ORACLE does not trust any CookieJar: per hop it compares the "
+    "Cookie header sent with the selection of an independent RFC 6265 reference store (RefJar: domain-match, host-only flag, "
+    "path-match, Secure, default-path; session cookies only) that has no caches and no memory of earlier selections",
+    "connection faults are injected by the in-memory server closing the pipe after reading the request; only 'closed before any "
+    "response byte' is modelled (Reply.drop), not partial responses",
     "netrc, parse_cookie_header, base64, payload classes (size / consumed / Content-Type of each body kind) are oracle columns",
     "CIMultiDict semantics (pop removes the first occurrence, popall all, item assignment replaces in place) are transcribed and "
     "exercised by the correspondence run (duplicate headers), not verified",
@@ -52,6 +65,10 @@ TRUSTED_BASE = [
     "header names and cookie names/values are ASCII tokens; header values printable ASCII",
 ]
 ASSUMPTIONS = [
+    "the resend allowance: the unchanged code allows ONE transparent resend per call (idempotent first method, default session) and "
+    "does not count it against max_redirects, so max_redirects + 1 requests can reach the wire - adopted narrowly as known finding "
+    "C17-K2 (signature .../single-resend-exceeds-max-redirects-by-one: exactly one resend, exactly max_redirects + 1 requests); "
+    "any second resend or any further request is a violation",
     "max_redirects = 0 means *unlimited* in the code (`if max_redirects and redirects >= max_redirects`); the bound "
     "'at most max_redirects requests' is stated and checked for max_redirects >= 1 only",
     "the caller's Content-Length, when supplied, equals the body length",
@@ -62,7 +79,8 @@ ASSUMPTIONS = [
 ]
 
 ORIGINS = [("http", "a.test", 80), ("http", "a.test", 8080), ("https", "a.test", 443), ("http", "b.test", 80),
-           ("https", "b.test", 8443), ("http", "sub.a.test", 80), ("http", "127.0.0.1", 80)]
+           ("https", "b.test", 8443), ("http", "sub.a.test", 80), ("http", "127.0.0.1", 80),
+           ("http", "sib.a.test", 80), ("http", "x.sub.a.test", 80), ("https", "sub.a.test", 443)]
 DEFAULT_PORT = {"http": 80, "https": 443}
 NETRC = {"a.test": ("na", "", "npa"), "b.test": ("nb", "", "npb")}
 REDIRECTS = (301, 302, 303, 307, 308)
@@ -112,6 +130,8 @@ def generate(repo):
             f"def getMethods : List (List Nat) := {strs(ClientRequest.GET_METHODS)}\n"
             "/-- `ClientRequestBase.POST_METHODS` (sorted) -/\n"
             f"def postMethods : List (List Nat) := {strs(ClientRequestBase.POST_METHODS)}\n"
+            "/-- `aiohttp.client.IDEMPOTENT_METHODS` (sorted) -/\n"
+            f"def idempotentMethods : List (List Nat) := {strs(c.IDEMPOTENT_METHODS)}\n"
             "/-- `ClientRequest.DEFAULT_HEADERS` in dict order -/\n"
             f"def defaultHeaders : List (List Nat × List Nat) := [{dh}]\n"
             "/-- `aiohttp.http.SERVER_SOFTWARE` -/\n"
@@ -230,6 +250,74 @@ def body_spec(case):
     raise ValueError(kind)
 
 
+# ------------------------------------------------------------------------------ RFC 6265 reference store
+def _is_ip(host):
+    r = host.replace(".", "")
+    return ":" in host or (r != "" and r.isdigit())
+
+
+def _domain_match(host, d):
+    return host == d or (not _is_ip(host) and host.endswith("." + d))
+
+
+def _path_match(req, cp):
+    return req == cp or (req.startswith(cp) and (cp.endswith("/") or req[len(cp):len(cp) + 1] == "/"))
+
+
+def _default_path(p):
+    if not p.startswith("/"):
+        return "/"
+    pre = p[:p.rfind("/")]
+    return pre if pre else "/"
+
+
+class RefJar:
+    """Independent reading of RFC 6265 §5.3/§5.4 for session cookies (no Max-Age/Expires are generated): what the
+    jar holds after the Set-Cookie headers seen so far, and which cookies may be attached to a request URL.
+    It shares no code and no state (caches!) with aiohttp.CookieJar: a selection depends on the store contents and the
+    request URL only, never on what was selected before."""
+
+    def __init__(self):
+        self.store = {}     # (name, domain, path) -> dict(value, host_only, secure)
+
+    def receive(self, host, upath, set_cookie_values):
+        if _is_ip(host):
+            return          # aiohttp's default jar (unsafe=False) takes no cookies from IP hosts
+        for raw in set_cookie_values:
+            parts = [x.strip() for x in raw.split(";")]
+            name, _, value = parts[0].partition("=")
+            domain, path, secure = "", "", False
+            for a in parts[1:]:
+                k, _, v = a.partition("=")
+                k = k.strip().lower()
+                if k == "domain":
+                    domain = v.strip().lstrip(".").lower()
+                elif k == "path":
+                    path = v.strip()
+                elif k == "secure":
+                    secure = True
+            if domain == "":
+                host_only, domain = True, host
+            elif not _domain_match(host, domain):
+                continue
+            else:
+                host_only = False
+            if not path.startswith("/"):
+                path = _default_path(upath)
+            self.store[(name, domain, path)] = {"value": value, "host_only": host_only, "secure": secure}
+
+    def select(self, host, rpath, secure):
+        """name -> set of admissible values (several cookies of one name may be attachable; the header carries one)"""
+        out = {}
+        if _is_ip(host):
+            return out
+        for (name, domain, path), c in self.store.items():
+            ok = (host == domain) if c["host_only"] else _domain_match(host, domain)
+            if ok and _path_match(rpath, path) and (secure or not c["secure"]):
+                out.setdefault(name, set()).add(c["value"])
+        return out
+
+
 # ------------------------------------------------------------------------------ running one case
 def pairs_tok(ps):
     return ";".join(f"{st(a)},{st(b)}" for a, b in ps) if ps else "~"
@@ -300,20 +388,25 @@ async def run_case(case, obs):
 
     seen, resps, events = [], [], []
     recording = [True]
+    faults = set(case.get("faults") or [])      # attempt numbers at which the peer closes without answering
 
     class RecResponse(ClientResponse):
-        def __init__(self, *a, **k):
-            super().__init__(*a, **k)
+        _c17_i = None
+
+        async def start(self, connection):
+            r = await super().start(connection)
+            # numbered when the response head has arrived: a request the peer never answered has no response
             self._c17_i = len(resps)
             resps.append(self)
+            return r
 
         def release(self):
-            if recording[0]:
+            if recording[0] and self._c17_i is not None:
                 events.append(f"r{self._c17_i}")
             return super().release()
 
         def close(self):
-            if recording[0]:
+            if recording[0] and self._c17_i is not None:
                 events.append(f"c{self._c17_i}")
             return super().close()
 
@@ -321,10 +414,17 @@ async def run_case(case, obs):
         # record the request as soon as its head is parsed: a body that never arrives must still be visible
         entry = {"origin": request.transport.get_extra_info("c17_origin"), "method": request.method,
                  "target": request.raw_path,
-                 "headers": [(k.decode("latin-1"), v.decode("latin-1")) for k, v in request.raw_headers], "body": None}
-        i = len(seen)
+                 "headers": [(k.decode("latin-1"), v.decode("latin-1")) for k, v in request.raw_headers], "body": None,
+                 "hop": sum(1 for x in seen if not x["dropped"]), "dropped": False}
+        attempt = len(seen)
         seen.append(entry)
         entry["body"] = await request.read()
+        if attempt in faults:
+            # the peer closes the connection without answering (dead keep-alive connection, crashed / hostile server)
+            entry["dropped"] = True
+            request.transport.close()
+            return web.Response()
+        i = entry["hop"]
         if i < len(script):
             status, hp, blen = script[i]
             if request.method == "HEAD":
@@ -349,19 +449,22 @@ async def run_case(case, obs):
     conn = PipeConnector(srv)
     jar = CookieJar()
     twin = CookieJar()
+    ref = RefJar()
     for o, n, v in case.get("jar0", []):
         for j in (jar, twin):
             j.update_cookies({n: v}, URL(url_str(o, "/")))
+        ref.receive(ORIGINS[o][1], "/", [f"{n}={v}"])
 
     # ---- oracle columns from the twin jar, by construction of the hop URLs
     def sel(j, url):
         return [(k, m.value) for k, m in j.filter_cookies(url).items()]
 
-    oracles, twin_sel = [], []
+    oracles, twin_sel, ref_sel = [], [], []
     for k, (o, path, cred) in enumerate(hops):
         u = URL(url_str(o, first_target if k == 0 else path))
         jsel = sel(twin, u)
         twin_sel.append(jsel)
+        ref_sel.append(ref.select(ORIGINS[o][1], u.path, ORIGINS[o][0] == "https"))
         rsel = []
         if case.get("cookies") is not None:
             tmp = CookieJar()
@@ -371,9 +474,10 @@ async def run_case(case, obs):
         sc = [v for n, v in script[k][1] if n == "Set-Cookie"] if k < len(script) else case.get("final", {}).get("set_cookie", [])
         if sc:
             twin.update_cookies_from_headers(sc, u)
+            ref.receive(ORIGINS[o][1], u.path, sc)
 
     # ---- model line
-    cfg = f"{case['max']},{'1' if case['allow'] else '0'},{'1' if case.get('trust') else '0'}"
+    cfg = f"{case['max']},{'1' if case['allow'] else '0'},{'1' if case.get('trust') else '0'},{'1' if case.get('retry', True) else '0'}"
     if start.get("nohost"):
         murl0 = ",".join(["0", "-", "80", "0", "~", "-", st(start["path"])])
     else:
@@ -384,13 +488,21 @@ async def run_case(case, obs):
     cparse = [f"{st(v)}:{pairs_tok(parse_cookie_simple(v))}" for n, v in hdrs + [tuple(x) for x in (case.get("session_headers") or [])]
               if n.lower() == "cookie"]
     chain_toks = []
+    attempt = [0]
+
+    def emit(tok):
+        while attempt[0] in faults:
+            chain_toks.append("D")
+            attempt[0] += 1
+        chain_toks.append(tok)
+        attempt[0] += 1
     for k, r in enumerate(chain):
         tok, t = loc_tok[k]
         if tok is None:
             tok = "U:" + murl(t[0], t[1], t[2])
-        chain_toks.append(f"{r['status']}:{k}:{tok}")
+        emit(f"{r['status']}:{k}:{tok}")
     fin = case.get("final", {})
-    chain_toks.append(f"{fin.get('status', 200)}:{len(chain)}:N")
+    emit(f"{fin.get('status', 200)}:{len(chain)}:N")
     model_line = " ".join(["run", cfg, st(case["method"].upper()), murl0,
                            st(first_target) if case.get("params") else "~",
                            pairs_tok(case.get("session_headers") or []), pairs_tok(hdrs), cookies_tok, body_tok, netrc_tok,
@@ -398,7 +510,7 @@ async def run_case(case, obs):
 
     obs.update({"model_line": model_line, "seen": seen, "events": events, "out": None, "final": None,
                 "leak_before": None, "leak_after": None, "hist": [], "hops": hops,
-                "twin_sel": twin_sel, "first_target": first_target, "body": body, "hdrs": hdrs,
+                "twin_sel": twin_sel, "ref_sel": ref_sel, "first_target": first_target, "body": body, "hdrs": hdrs,
                 "valid_hops": valid_hops})
 
     # ---- the real thing
@@ -413,6 +525,9 @@ async def run_case(case, obs):
         async with aiohttp.ClientSession(connector=conn, cookie_jar=jar, response_class=RecResponse,
                                          headers=CIMultiDict(case["session_headers"]) if case.get("session_headers") else None,
                                          trust_env=bool(case.get("trust"))) as s:
+            # the default session allows one transparent resend per call; aiohttp's TestClient switches that off
+            if not case.get("retry", True):
+                s._retry_connection = False
             kw = {}
             if body is not None:
                 kw["data"] = body[0]()
@@ -439,6 +554,8 @@ async def run_case(case, obs):
                 hist_obs = [{"i": h._c17_i, "status": h.status, "released": h._connection is None and h.closed} for h in e.history]
             except ce.ClientPayloadError:
                 out = "err,payloadConsumed"
+            except (ce.ServerDisconnectedError, ce.ClientOSError):
+                out = "err,disconnected"
             except ce.NonHttpUrlRedirectClientError:
                 out = "err,nonHttpRedirect"
             except ce.InvalidUrlRedirectClientError:
@@ -530,6 +647,7 @@ def oracle(ctx, case, res, hang):
 
     left = False
     for k, s in enumerate(seen):
+        hop = s["hop"]
         if s["origin"] != o0:
             left = True
         back = "-after-return" if (left and s["origin"] == o0) else ""
@@ -550,14 +668,15 @@ def oracle(ctx, case, res, hang):
                               f"hop {k} to {s['origin']} carries per-request cookies (supplied for {o0})")
         for h, val in url_creds:
             if val in auth:
-                ok = h <= k and all(seen[j]["origin"] == s["origin"] for j in range(h, k + 1))
+                ok = h <= hop and all(x["origin"] == s["origin"] for x in seen[: k + 1] if h <= x["hop"])
                 if not ok:
                     kind = "start-url" if h == 0 else "redirect-url"
                     ctx.violation(f"C17/confine/{kind}-credential-sent-off-origin", case,
                                   f"hop {k} to {s['origin']} carries credentials embedded in the URL of hop {h}")
-        # jar cookies re-selected for this hop
-        if k < res["valid_hops"]:
-            exp = dict(res["twin_sel"][k])
+        # jar cookies re-selected for this hop: what is sent must be the RFC 6265 selection for THIS hop's URL from
+        # the cookies received so far (independent reference store) - whatever was sent on earlier hops
+        if hop < res["valid_hops"] and hop < len(res["ref_sel"]):
+            exp = res["ref_sel"][hop]                       # name -> set of admissible values
             live_caller = [] if left else (caller_hcookies + caller_rcookies)
             got = {}
             for n, v in pairs:
@@ -565,13 +684,17 @@ def oracle(ctx, case, res, hang):
                     continue
                 got[n] = v
             caller_names = {n for n, _ in live_caller}
-            missing = {n: v for n, v in exp.items() if got.get(n) != v and n not in caller_names}
-            extra = {n: v for n, v in got.items() if exp.get(n) != v and (n, v) not in caller_hcookies + caller_rcookies}
-            if missing or extra:
-                ctx.violation("C17/jar/cookies-not-reselected-for-hop", case,
-                              f"hop {k} to {s['origin']}: jar selection for this URL is {exp}, sent {got}")
+            over = {n: v for n, v in got.items() if v not in exp.get(n, ()) and (n, v) not in caller_hcookies + caller_rcookies}
+            under = {n: sorted(vs) for n, vs in exp.items() if got.get(n) not in vs and n not in caller_names}
+            if over:
+                ctx.violation("C17/jar/cookie-sent-that-rfc6265-does-not-select-for-this-hop", case,
+                              f"request {k} (hop {hop}) to {s['origin']} {s['target']}: Cookie header carries {over}; the jar contents "
+                              f"select {({n: sorted(v) for n, v in exp.items()})} for this URL")
+            elif under:
+                ctx.violation("C17/jar/cookie-selected-for-this-hop-not-sent", case,
+                              f"request {k} (hop {hop}) to {s['origin']} {s['target']}: jar selection {under} missing, sent {got}")
 
-    # method / body table
+    # method / body table (over the answered requests; a transparent resend must repeat the request it replaces)
     exp_body = res["body"][1] if res["body"] else b""
     never = [k for k, s in enumerate(seen) if s["body"] is None]
     if never or str(res["out"]) == "err,TIMEOUT":
@@ -580,10 +703,20 @@ def oracle(ctx, case, res, hang):
         ctx.violation("C17/table/first-request-differs", case,
                       f"first request is {seen[0]['method']} with body {seen[0]['body']!r}")
     for k in range(len(seen) - 1):
-        if k >= len(chain):
+        if seen[k]["dropped"] and seen[k + 1]["hop"] == seen[k]["hop"]:
+            a, b = seen[k], seen[k + 1]
+            if (a["method"], a["body"], a["origin"], a["target"]) != (b["method"], b["body"], b["origin"], b["target"]):
+                ctx.violation("C17/table/resend-differs-from-the-request-it-replaces", case,
+                              f"request {k} {a['method']} {a['target']} body {a['body']!r} resent as {b['method']} {b['target']} body {b['body']!r}")
+    answered = [x for x in seen if not x["dropped"]]
+    first_of_hop = {}
+    for x in seen:
+        first_of_hop.setdefault(x["hop"], x)
+    for k in range(len(chain)):
+        if k not in first_of_hop or (k + 1) not in first_of_hop:
             break
-        status, m = chain[k]["status"], seen[k]["method"]
-        nxt = seen[k + 1]
+        status, m = chain[k]["status"], first_of_hop[k]["method"]
+        prev, nxt = first_of_hop[k], first_of_hop[k + 1]
         if (status == 303 and m != "HEAD") or (status in (301, 302) and m == "POST"):
             cl = hv(nxt, "content-length")
             if nxt["method"] != "GET" or (nxt["body"] or b"") != b"" or any(c not in ("0",) for c in cl) or hv(nxt, "transfer-encoding"):
@@ -591,26 +724,41 @@ def oracle(ctx, case, res, hang):
                               f"{status} after {m}: next request is {nxt['method']} body={nxt['body']!r} "
                               f"Content-Length={cl} Transfer-Encoding={hv(nxt, 'transfer-encoding')}")
         else:
-            if nxt["method"] != m or nxt["body"] != seen[k]["body"]:
+            if nxt["method"] != m or nxt["body"] != prev["body"]:
                 ctx.violation("C17/table/method-or-body-not-preserved", case,
                               f"{status} after {m}: next request is {nxt['method']} with body {nxt['body']!r}, "
-                              f"previous had {seen[k]['body']!r}")
+                              f"previous had {prev['body']!r}")
     if hang:
         ctx.violation("C17/table/request-never-completes", case,
                       f"a server never received the body its request head announced / the call did not finish (requests without body: {never})")
         return
 
-    # termination
-    if case["max"] >= 1 and len(seen) > case["max"]:
-        ctx.violation("C17/limit/more-requests-than-max-redirects", case,
-                      f"{len(seen)} requests made with max_redirects={case['max']}")
-    if not case["allow"] and len(seen) > 1:
-        ctx.violation("C17/limit/redirect-followed-with-allow-redirects-false", case, f"{len(seen)} requests")
+    # termination: the redirect budget (max_redirects requests) plus ONE transparent resend per call
+    n_wire = len(seen)
+    resends = sum(1 for k in range(len(seen) - 1) if seen[k]["dropped"])       # dropped attempts that were followed by another attempt
+    if resends > 1:
+        ctx.violation("C17/limit/resend-allowance-renewed", case,
+                      f"{resends} requests were silently resent after the peer closed the connection (one per call is the allowance); "
+                      f"{n_wire} requests on the wire, outcome {res['out']}")
+    if case["max"] >= 1:
+        if n_wire > case["max"] + resends or n_wire > case["max"] + 1:
+            ctx.violation("C17/limit/more-requests-than-max-redirects", case,
+                          f"{n_wire} requests on the wire ({resends} of them resends) with max_redirects={case['max']}")
+        elif n_wire > case["max"]:
+            # exactly max_redirects + 1, the surplus being the call's single resend
+            ctx.violation("C17/limit/single-resend-exceeds-max-redirects-by-one", case,
+                          f"{n_wire} requests on the wire with max_redirects={case['max']}: max_redirects requests were answered AND one "
+                          f"request was resent after a dropped connection")
+    if seen[-1]["dropped"] and str(res["out"]) != "err,disconnected":
+        ctx.violation("C17/limit/disconnect-not-reported", case,
+                      f"the last request was never answered but the call ended with {res['out']}")
+    if not case["allow"] and len(answered) > 1:
+        ctx.violation("C17/limit/redirect-followed-with-allow-redirects-false", case, f"{len(answered)} answered requests")
 
     # refusals: nothing is requested after a response whose Location is not an http(s) URL
     for k, r in enumerate(chain):
-        if k < len(seen) and r["status"] in REDIRECTS and case["allow"] and r["loc"]["form"] in ("nonhttp", "invalid", "badorigin"):
-            if len(seen) > k + 1 or str(res["out"]).startswith("ok"):
+        if k < len(answered) and r["status"] in REDIRECTS and case["allow"] and r["loc"]["form"] in ("nonhttp", "invalid", "badorigin"):
+            if any(x["hop"] > k for x in seen) or str(res["out"]).startswith("ok"):
                 what = "non-http" if r["loc"]["form"] == "nonhttp" else "invalid"
                 ctx.violation(f"C17/refuse/{what}-target-not-refused", case,
                               f"response {k} redirects to {r['loc'].get('raw')!r}: {len(seen)} requests made, outcome {res['out']}")
@@ -624,8 +772,8 @@ def oracle(ctx, case, res, hang):
             ctx.violation("C17/history/self-in-history-no-location", case,
                           f"the returned response (index {f}, status {seen and chain[f]['status'] if f < len(chain) else '?'}) "
                           f"is an element of its own history {hist}")
-        elif hist != list(range(f)) or f != len(seen) - 1:
-            ctx.violation("C17/history/order-or-content", case, f"history {hist} for final response {f}, {len(seen)} requests")
+        elif hist != list(range(f)) or f != len(answered) - 1:
+            ctx.violation("C17/history/order-or-content", case, f"history {hist} for final response {f}, {len(answered)} answered requests")
         else:
             for h in res["hist"]:
                 if h["status"] != chain[h["i"]]["status"]:
@@ -738,6 +886,10 @@ def gen_case(rng, *, n=None, method=None, body=None, statuses=None, forms=None, 
     if rng.random() < 0.12:
         case["session_headers"] = rng.choice([[["Authorization", "Bearer SESSION-A"]], [["X-Sess", "1"], ["Cookie", "sc=1"]],
                                               [["Proxy-Authorization", "Basic SESSION-P"], ["User-Agent", "sess"]]])
+    if rng.random() < 0.15:
+        case["faults"] = sorted(rng.sample(range(0, n + 3), rng.choice([1, 1, 2, 3])))
+        if rng.random() < 0.2:
+            case["retry"] = False
     if rng.random() < 0.1:
         case["final"] = {"status": rng.choice([200, 204, 404, 500]), "set_cookie": ["fin=1"]}
     return case
@@ -789,6 +941,49 @@ def counter_cases():
                    "params": None, "headers": [], "cookies": None, "jar0": [], "body": {"kind": "none"}, "chain": chain}
 
 
+def jar_walks():
+    """the real CookieJar with its caches warm: hop 0 sets cookies (host-only / Domain / Path-limited / Secure), 0-2 further
+    hops to the setting host warm the jar's per-(domain, path) caches, then a hop to a sub-domain / sibling / parent / other
+    host / other scheme / other path, then back"""
+    sets = [["sid=SECRET; Path=/"], ["sid=SECRET"], ["dsid=D; Domain=a.test; Path=/"], ["psid=P; Path=/d/only"],
+            ["ssid=S; Secure; Path=/"],
+            ["sid=SECRET; Path=/", "dsid=D; Domain=a.test", "psid=P; Path=/d/only", "ssid=S; Secure; Path=/"]]
+    for start_o in (0, 5, 2):
+        for warm in (0, 1, 2):
+            for tgt in range(len(ORIGINS)):
+                for tpath in ("/d/t", "/e/t", "/d/only/x"):
+                    for cs in sets:
+                        chain = [{"status": 302, "loc": {"form": "relpath", "path": "/d/home0"}, "set_cookie": cs}]
+                        for i in range(warm):
+                            chain.append({"status": 302, "loc": {"form": "relpath", "path": ("/d/only/w", "/d/home")[i % 2] + str(i)}})
+                        chain.append({"status": 302, "loc": {"form": "abs", "o": tgt, "path": tpath, "cred": None}})
+                        chain.append({"status": 302, "loc": {"form": "abs", "o": start_o, "path": "/d/back", "cred": None}})
+                        yield {"max": 10, "allow": True, "trust": False, "method": "GET",
+                               "start": {"o": start_o, "path": "/d/login", "cred": None}, "params": None, "headers": [],
+                               "cookies": None, "jar0": [], "body": {"kind": "none"}, "chain": chain, "class": "jar-walk"}
+
+
+def fault_chains():
+    """the peer closes a connection without answering: first attempt of hop k, every hop, twice in a row, the last hop"""
+    for status in REDIRECTS:
+        for method, kind in (("GET", "none"), ("POST", "bytes"), ("PUT", "bytes"), ("PUT", "agen"), ("DELETE", "none")):
+            for n in (1, 2, 3, 5):
+                pats = [[k] for k in range(n + 1)]                     # first attempt of hop k (no earlier drop)
+                pats.append([2 * k for k in range(n + 1)])             # the first attempt of every hop
+                pats += [[k, k + 1] for k in range(0, n + 1, max(1, n // 2))]   # twice in a row at hop k
+                pats.append([1, 3])
+                for faults in pats:
+                    for maxr in sorted({10, n, n + 1, 6}):
+                        for retry in (True, False):
+                            if not retry and (len(faults) != 1 or maxr != 10):
+                                continue
+                            chain = [{"status": status, "loc": {"form": "relpath", "path": f"/d/r{k + 1}"}} for k in range(n)]
+                            yield {"max": maxr, "allow": True, "trust": False, "retry": retry, "method": method,
+                                   "start": {"o": 0, "path": "/d/r0", "cred": None}, "params": None,
+                                   "headers": [["Authorization", "Bearer CALLER-A"]] if n == 2 else [], "cookies": None, "jar0": [],
+                                   "body": {"kind": kind, "data": "BODY"}, "chain": chain, "faults": faults, "class": "fault-chain"}
+
+
 def corpus_cases():
     d = os.path.join(os.path.dirname(os.path.dirname(os.path.abspath(__file__))), "corpus", "C17")
     out = []
@@ -817,6 +1012,12 @@ def classify_generated(ctx, case):
     if case.get("trust"):
         ctx.hit("gen:trust-env")
     ctx.hit("gen:body:" + case["body"]["kind"])
+    if case.get("faults"):
+        ctx.hit("gen:fault:" + ("one" if len(case["faults"]) == 1 else "several"))
+        if not case.get("retry", True):
+            ctx.hit("gen:fault:retry-off")
+    if case.get("class"):
+        ctx.hit("gen:class:" + case["class"])
 
 
 def classify(ctx, case, res, hang):
@@ -874,11 +1075,16 @@ def check(ctx):
     table = list(systematic_table())
     walks = list(origin_walks())
     counters = list(counter_cases())
+    jwalks = list(jar_walks())
+    fchains = list(fault_chains())
+    # the budget of this check starts now (a first run in a fresh worktree spends minutes building the Lean side)
+    import time
+    ctx.deadline = time.time() + (60 if ctx.quick else 780)
     if ctx.quick:
-        cases += rng.sample(table, 400) + rng.sample(walks, 200) + counters
+        cases += rng.sample(table, 400) + rng.sample(walks, 200) + counters + rng.sample(jwalks, 400) + rng.sample(fchains, 500)
         n_rand, n_cred, n_forms = 2400, 700, 700
     else:
-        cases += table + walks + counters
+        cases += table + walks + counters + jwalks + fchains
         ctx.extra["exhaustive_small_scopes"] = ("all status x method x body-kind tables (x 3 continuations), all origin walks of "
                                                "length 3 over 4 origins x credential position, all (chain length, max_redirects) pairs <= (5, 7)")
         n_rand, n_cred, n_forms = 50000, 12000, 12000
@@ -888,12 +1094,13 @@ def check(ctx):
     cases += [gen_case(rng, n=rng.randint(1, 4), statuses=list(REDIRECTS)) for _ in range(n_forms)]
     run_all(ctx, cases)
     # blind spots are judged on what was generated (and on the model's verdicts), never on the implementation's behaviour
-    need = ["gen:A-B-A", "gen:url-credentials", "gen:trust-env", "gen:slow-body"] + \
+    need = ["gen:A-B-A", "gen:url-credentials", "gen:trust-env", "gen:slow-body", "gen:fault:one", "gen:fault:several",
+            "gen:fault:retry-off", "gen:class:jar-walk", "gen:class:fault-chain"] + \
            [f"gen:form:{f}" for f in ("abs", "schemerel", "rel", "relpath", "none", "invalid", "nonhttp", "badorigin")] + \
            [f"gen:status:{s}" for s in REDIRECTS] + [f"gen:body:{b}" for b in BODY_KINDS]
     if ctx.model_available:
         need += ["model-outcome:tooManyRedirects", "model-outcome:payloadConsumed", "model-outcome:nonHttpRedirect",
-                 "model-outcome:invalidRedirectUrl", "model-outcome:ok"]
+                 "model-outcome:invalidRedirectUrl", "model-outcome:ok", "model-outcome:disconnected"]
     missing = [n for n in need if not ctx.hits.get(n)]
     if missing:
         from .common.guard import MachineryError
